@@ -347,7 +347,10 @@ void do_req(const ev::Cmd& c) {
     for (const auto& [k, v] : hs) order += (order.empty() ? "" : ",") + k;
     e.s("order", order);
     // an over-cap declaration must be answered without the body: give a loaded machine time before calling it silence
-    RawResp r = raw_request(src, hs, body, withhold, late, overcap ? 15000 : 100);
+    // (once a daemon has been seen to stay silent the point is made: later probes wait only briefly)
+    static bool seen_silent = false;
+    RawResp r = raw_request(src, hs, body, withhold, late, overcap ? (seen_silent ? 300 : 15000) : 100);
+    if (overcap && withhold && !r.early) seen_silent = true;
     e.b("wf", wellformed).s("status", r.status).s("code", r.code);
     e.b("autherr", r.code.find("UNAUTH") != std::string::npos || r.code.find("AUTH") != std::string::npos || r.code.find("FORBIDDEN") != std::string::npos || r.code.find("DENIED") != std::string::npos);
     e.b("withheld", withhold).b("early", r.early);
@@ -541,6 +544,7 @@ int main(int argc, char** argv) {
     std::ifstream in(argv[1]);
     if (!in) { std::perror(argv[1]); return 2; }
     ev::open(argv[2]);
+    std::setvbuf(ev::out(), nullptr, _IOLBF, 0);   // events survive a daemon that aborts the process
     g_work = fs::absolute(argv[3]).string();
     g_outdir = g_work + "/daemon-out";
     fs::create_directories(g_outdir);
